@@ -114,6 +114,7 @@ static void churn_check(const Json& c, Out& o) {
     o.evals = creations;
 }
 static void churn_gen(Ctx& ctx) {
+    ctx.no_shrink = true;   // a failure here depends on the schedule: the generated program is the reproduction unit
     ctx.rc("churn", ctx.by_tier(640, 6400), [&]() {
         const int T = pick(2, pick(0, 2) == 0 ? 16 : 8);
         Json threads = Json::array();
